@@ -5,6 +5,16 @@ use std::cell::{Cell, RefCell};
 use std::io::{self, ErrorKind, Read, Write};
 use std::rc::Rc;
 
+thread_local! {
+    /// The `ErrorKind` of injected faults (`runk` request); `Other` unless set. Never `Interrupted`:
+    /// by the contract of `Read`/`Write` that kind means "retry", not "failed".
+    pub static FAULT_KIND: Cell<ErrorKind> = Cell::new(ErrorKind::Other);
+}
+
+fn fault(text: &'static str) -> io::Error {
+    io::Error::new(FAULT_KIND.with(|k| k.get()), text)
+}
+
 /// Hands out exactly one line per `read` call, so that the `BufReader` inside the
 /// interpreter cannot read ahead and "lines handed out" counts the `listen`s served.
 ///
@@ -38,7 +48,7 @@ impl Read for LineReader {
         }
         if !self.mid_line {
             if self.fault_at == Some(self.handed_out.get()) {
-                return Err(io::Error::new(ErrorKind::Other, "verif read fault"));
+                return Err(fault("verif read fault"));
             }
             self.handed_out.set(self.handed_out.get() + 1);
         }
@@ -71,7 +81,7 @@ impl Write for BudgetWriter {
             return Ok(0);
         }
         let n = match &mut self.budget {
-            Some(0) => return Err(io::Error::new(ErrorKind::Other, "verif write fault")),
+            Some(0) => return Err(fault("verif write fault")),
             Some(left) => {
                 let n = buf.len().min(*left);
                 *left -= n;
